@@ -149,23 +149,41 @@ def check_case(case):
         exp_pairs = sorted((pid, float(score_of[pid])) for pid in candidates)
         require(got_pairs == exp_pairs, "combined.contents", lambda: "combined scores %r, expected %r (order %r)" % (got_pairs, exp_pairs, order))
         policy = KPerSamplePlatePolicy(case["policy_k"]) if case["policy_k"] else None
-        if policy is None:
-            allowed = list(candidates)
-        else:
-            al = policy.filter_eligible_plates(batch_plates=[plates[b] for b in sorted(batch_set)], unobserved_plates=[plates[u] for u in candidates], rng=np.random.default_rng(1))
-            allowed = sorted(int(p.plate_id) for p in al)
-        chosen = select_next_plate(scores=combined, screen=screen, policy=policy, batch_plate_ids=list(batch), rng=np.random.default_rng(2))
-        if not allowed:
-            require(chosen is None, "select.none_iff_nothing_allowed", lambda: "plate %r returned although no plate is allowed" % (None if chosen is None else int(chosen.plate_id)))
-        else:
-            require(chosen is not None, "select.returns_when_allowed", lambda: "nothing returned although plates %r are allowed" % allowed)
-            cid = int(chosen.plate_id)
-            require(cid in unobs, "select.unobserved", lambda: "selected plate %d is observed" % cid)
-            require(cid not in batch_set, "select.not_in_batch", lambda: "selected plate %d is already in the batch %r" % (cid, batch))
-            require(cid in allowed, "select.allowed", lambda: "selected plate %d not allowed by the policy (allowed %r)" % (cid, allowed))
-            best = min(score_of[a] for a in allowed)
-            require(score_of[cid] <= best, "select.minimum", lambda: "selected plate %d has score %r but allowed plate scores are %r" % (cid, score_of[cid], {a: score_of[a] for a in allowed}))
-            require(np.array_equal(np.asarray(chosen.selection_vector), np.asarray(plates[cid].selection_vector)), "select.plate_rows", "returned plate object does not select that plate's rows")
+
+        def check_select(pol, batch_ids, tag):
+            """select on the SAME combined holder; returns (allowed, chosen id or None)"""
+            bset = set(batch_ids)
+            cands = [u for u in unobs if u not in bset]
+            if pol is None:
+                allowed_ = list(cands)
+            else:
+                al = pol.filter_eligible_plates(batch_plates=[plates[b_] for b_ in sorted(bset)], unobserved_plates=[plates[u] for u in cands], rng=np.random.default_rng(1))
+                allowed_ = sorted(int(p_.plate_id) for p_ in al)
+            allowed_ = [a_ for a_ in allowed_ if a_ in set(candidates)]  # only plates that were scored can be chosen
+            if pol is not None and len(allowed_) != len(al):
+                return allowed_, None  # the policy allows a plate without a score: outside this property's precondition
+            chosen_ = select_next_plate(scores=combined, screen=screen, policy=pol, batch_plate_ids=list(batch_ids), rng=np.random.default_rng(2))
+            if not allowed_:
+                require(chosen_ is None, tag + ".none_iff_nothing_allowed", lambda: "plate %r returned although no plate is allowed" % (None if chosen_ is None else int(chosen_.plate_id)))
+                return allowed_, None
+            require(chosen_ is not None, tag + ".returns_when_allowed", lambda: "nothing returned although plates %r are allowed" % allowed_)
+            cid_ = int(chosen_.plate_id)
+            require(cid_ in unobs, tag + ".unobserved", lambda: "selected plate %d is observed" % cid_)
+            require(cid_ not in bset, tag + ".not_in_batch", lambda: "selected plate %d is already in the batch %r" % (cid_, list(batch_ids)))
+            require(cid_ in allowed_, tag + ".allowed", lambda: "selected plate %d not allowed by the policy (allowed %r)" % (cid_, allowed_))
+            best_ = min(score_of[a_] for a_ in allowed_)
+            require(score_of[cid_] <= best_, tag + ".minimum", lambda: "selected plate %d has score %r but allowed plate scores are %r" % (cid_, score_of[cid_], {a_: score_of[a_] for a_ in allowed_}))
+            require(np.array_equal(np.asarray(chosen_.selection_vector), np.asarray(plates[cid_].selection_vector)), tag + ".plate_rows", "returned plate object does not select that plate's rows")
+            return allowed_, cid_
+
+        allowed, first_choice = check_select(policy, list(batch), "select")
+        # the same holder is asked again with other eligible sets: without the policy, and with the first choice added to the batch
+        check_select(None, list(batch), "select_again_without_policy")
+        if first_choice is not None:
+            check_select(policy, list(batch) + [first_choice], "select_again_next_in_batch")
+            check_select(policy, list(batch), "select_repeat")
+        kept = sorted((int(p_), float(s_)) for p_, s_ in zip(combined.plate_ids[: combined.current_index], combined.scores[: combined.current_index]))
+        require(kept == exp_pairs, "combined.unchanged_by_selection", lambda: "the combined scores changed while plates were selected from them: %r -> %r" % (exp_pairs, kept))
 
         if case["cli"]:
             sfile = tmp.fresh("screen.h5")
